@@ -7,6 +7,7 @@ BASE=e3dad1d
 for dir in "$@"; do
   [ -f "$dir/patch.diff" ] || continue; pf="$dir/patch.diff"; [ -f "$dir/patch.orig.diff" ] && pf="$dir/patch.orig.diff"
   [ -f "$dir/confirmed.json" ] && continue
+  BASE=e3dad1d; [ -f "$dir/base" ] && BASE=$(cat "$dir/base")
   wt=$(mktemp -d /tmp/cedarvc-seedwt-XXXXXX); rmdir $wt
   git -C /repo worktree add -q --detach $wt $BASE || continue
   pkgdir=$(python3 -c "import json,sys; print(json.load(open('$dir/meta.json')).get('demo_pkg_dir','').strip('./'))" 2>/dev/null)
